@@ -33,3 +33,6 @@ Proof.
   - intros [y [Hy He]]. apply String.eqb_eq in He. now subst.
   - intros H. exists x. split; [assumption|apply String.eqb_refl].
 Qed.
+
+Lemma sappend_assoc : forall a b c : string, (a ++ b) ++ c = a ++ (b ++ c).
+Proof. induction a as [|x a IH]; intros b c; simpl; [reflexivity|now rewrite IH]. Qed.
